@@ -27,7 +27,7 @@ REAL = ["bec2format.bf3file / bec2file / crypto registry", "register_crypto_plug
         "when the fault arm is active)"]
 STUBS = ["medium: SimFS", "RNG: SimRng", "cipher fault wrapper FaultyAES / abstract base class for 'missing'",
          "RefAES, RefDir (independent models)"]
-PROBES = ["cipher-takes-whole-blocks-only", "blocks-derived-from-configuration", "runs-with-assertions-disabled", "retry-after-cipher-failure", "marked-component-without-enc-tag", "plain-configuration-replaced-by-set_config", "sibling-package-made-plain", "concurrent-writers-same-key", "rewritten-under-second-key", "content-longer-than-4096", "content-multiple-of-16", "content-trailing-zero", "content-all-zero", "cipher-missing", "cipher-raised-at-k",
+PROBES = ["derived-file-scanned", "cipher-takes-whole-blocks-only", "blocks-derived-from-configuration", "runs-with-assertions-disabled", "retry-after-cipher-failure", "marked-component-without-enc-tag", "plain-configuration-replaced-by-set_config", "sibling-package-made-plain", "concurrent-writers-same-key", "rewritten-under-second-key", "content-longer-than-4096", "content-multiple-of-16", "content-trailing-zero", "content-all-zero", "cipher-missing", "cipher-raised-at-k",
           "write-failed-no-file", "write-failed-file-exists", "rewrite-same-ciphertext", "bec2-framing", "config-component",
           "secrecy-needles-checked"]
 ASSUMPTIONS = ["encrypted content is defined up to its declared length; the reader returns the zero-padded plaintext"]
@@ -387,6 +387,7 @@ def run(case):
                     out.ev("derived-write-raised", type(e).__name__)
                 else:
                     d2 = fs.files["derived.bec2"]
+                    out.probes["derived-file-scanned"] += 1
                     leak = _scan([("configuration security code", code), ("session key", bytes(bec.session_key))],
                                  d2, files.binary_of(d2)[1])
                     if leak:
